@@ -23,43 +23,78 @@ CLAIM = dict(
           "with-structured programs: a resolved argument is the explicit one, else that of the innermost context setting it, "
           "else the default, which is the one the source pairs with the parameter (precedence, default_param, default_kwonly, "
           "passing_styles_agree); a call with a Required argument left is rejected and emits nothing, and is "
-          "accepted otherwise (required_rejected, accepted_complete, rejected_sends_nothing); after any block - any nesting, normal exit, exception at any depth, "
-          "failing stop signal - the stack is exactly the one before (restore); an application block ends with a stop "
-          "signal resolved to the block's application (application_stops); the connection used is the local Ethernet "
-          "chip's when known, the BMP's most specific one (connection_choice).  The signature of every decorated method "
-          "of both controllers is regenerated from source and proved well-formed for the decorator.  Tied to the code on "
-          "every run: every decorated method x passing style (positional/keyword/context/default/mixed) x nesting, plus "
-          "random programs with exceptions at every depth, run on the real controllers over recording fake connections; "
-          "resolved keyword dictionaries, rejections, context snapshots compared exactly with the model, and the Lean "
-          "oracles evaluated on every datagram (chip, core, application id / board mask, connection, stop signal)."),
+          "accepted otherwise (required_rejected, accepted_complete, rejected_sends_nothing); after any block - any nesting, normal exit, "
+          "exception at any depth, method bodies that fail after sending, any sequence of before_close callbacks (which may call "
+          "methods, open blocks, update the context or raise), failing stop signal - the stack is exactly the one before (restore, "
+          "restore_application, block_events, failing_call_unwinds); an application block ends with a stop signal resolved to the "
+          "block's application before any user callback runs, nested application blocks stop the inner application first and "
+          "then the outer one (application_stops, application_events, nested_applications_stop_inner_first); the connection used "
+          "is the local Ethernet chip's when known, the BMP's most specific one (connection_choice).  THE WIRE: for EVERY decorated "
+          "method of the generated signature table, every argument passing and every stack, each request the method's rule emits "
+          "(directly or through inner decorated calls, which are resolved again) is addressed to the chip (x, y) bound for the call "
+          "- (255, 255) for methods without chip coordinates, data-computed chips only for the four methods documented to visit "
+          "many - carries the call's application id, resp. goes to the call's (cabinet, frame, board) [first board of an iterable "
+          "for set_led, board 0 for set_power] with the boards' mask (wire_carries_resolved = soundness of a symbolic execution of "
+          "the rules, absWire_sound, + a decide over the 46 generated signatures x rules, rules_obey_signature_rule; bound_is_resolved "
+          "ties the bound value to the precedence dictionary).  x, y and the application id of a request never depend on how the "
+          "arguments were passed; the core p of inner requests does for exactly 17 methods, 5 of which take p themselves "
+          "(chip_independent_of_passing_style, core_from_context_methods, core_style_dependent_methods, "
+          "core_independent_of_passing_style).  The signature of every decorated method of both controllers is regenerated from "
+          "source and proved well-formed for the decorator.  Tied to the code on every run: every decorated method x passing style "
+          "(positional/keyword/context/default/mixed) x nesting, boards passed as lists / tuples, injected SCP failures at the "
+          "n-th request, failed SDRAM / router allocation, applications that do not load, IOBUF chains, before_close callbacks "
+          "(raising, re-entrant, on application contexts), nested application blocks, discover_connections run for real on fake "
+          "machines of several sizes (dead chips, Ethernet down, boards that do not answer) with every later datagram judged "
+          "against the connection table in force when it was sent, plus random programs with all of these, run on the real "
+          "controllers over recording fake connections; resolved keyword dictionaries, rejections, context snapshots compared "
+          "exactly with the model, and the Lean oracles evaluated on every datagram (chip, core, application id / board mask, "
+          "connection, stop signal)."),
     design="3/C18",
-    note=("Per-method glue (which datagrams a method sends, and which inner decorated calls it makes) is a hand transcription "
-          "validated by exhaustive-over-methods correspondence, not proved.  Inner calls that omit `p` pick it up from the "
-          "context (e.g. get_processor_status under `with mc(p=3)` reads via core 3, with explicit p=3 via core 0): modelled "
-          "as the code behaves and reported as an observation.  count_cores_in_state / wait_for_cores_to_reach_state / "
-          "load_application cannot be driven past `collections.Iterable` on this interpreter (defect F6, property C09); "
-          "their resolution and rejection are still checked.  Board arguments that are iterables are outside the generators."),
+    note=("What is proved about the per-method rules is relative to the transcription `bodyOf` (which sends and which inner "
+          "decorated calls a method makes, with which argument expressions): that transcription is validated by "
+          "exhaustive-over-methods correspondence (every datagram of the real method must match a pattern of the rule, and a "
+          "method that sends nothing where the rule has patterns is a mismatch), not proved; values the rule marks `dyn` "
+          "(addresses, chips found in tables) are not compared.  Observation, not a violation (the property speaks of the "
+          "contextual arguments of the command the caller issued; x / y / app_id are unaffected - proved and observed): inner "
+          "decorated calls that omit `p` take it from the context stack, so e.g. `mc.get_processor_status(3, 1, 2)` reads via core "
+          "0 but `with mc(x=1, y=2, p=3): mc.get_processor_status()` via core 3; the 17 methods the model proves affected are "
+          "exactly the ones observed (evidence: wire_depends_on_passing_style, core_follows_ambient_p).  Whether a method body "
+          "fails (network error, failed allocation) is an input of the model taken from the run, not predicted.  The connection "
+          "table after discover_connections is observed (snapshot per datagram), not predicted by the model; connections are "
+          "identified by the host they were opened to.  F6 is fixed in the pinned tree: count_cores_in_state / "
+          "wait_for_cores_to_reach_state / load_application are driven like every other method."),
     technique="Lean 4 theorems over a hand-written model + translator for signatures/constants + differential correspondence + Lean spec as oracle")
 
 THEOREMS = ["signatures_wellformed", "every_method_has_rule", "precedence", "precedence_accepted", "ctxLookup_innermost",
             "default_param", "default_kwonly", "passing_styles_agree",
             "required_rejected", "rejected_names_required", "accepted_complete", "rejected_sends_nothing",
             "restore", "restore_application", "restore_inner", "restore_arguments",
-            "stop_targets_application", "application_stops", "connection_choice_mc", "connection_choice_bmp"]
+            "stop_targets_application", "application_stops", "connection_choice_mc", "connection_choice_bmp",
+            # deepening round
+            "application_events", "nested_applications_stop_inner_first", "block_events", "failing_call_unwinds",
+            "rules_obey_signature_rule", "rules_chip_known", "carries_of_ruleOk", "wire_carries_resolved",
+            "sent_carries_resolved", "bound_is_resolved", "chip_independent_of_passing_style",
+            "core_from_context_methods", "core_style_dependent_methods", "core_independent_of_passing_style"]
 
 RULE = ("systematic part: every decorated method of MachineController and BMPController x passing style (positional, keyword, "
         "context, default, mixed) x nesting (none, one block, two blocks with partial override, block left by exception then "
-        "call); random part: with-structured programs of depth <= 4 with blocks over random subsets of argument names, "
-        "application blocks (explicit / contextual id, failing stop), update_current_context, raise, try/except, calls of "
-        "random methods in random styles (incl. calls lacking required arguments), over random connection tables (machine "
-        "sizes, root chips, discovered Ethernet chips; BMP board/frame connections).  Contextual values are drawn pairwise "
-        "distinct so that a swapped or stale value cannot match by accident.  Non-trivial: a program in which at least one "
-        "call resolved an argument from a context or was rejected inside a block, or a block was left by exception.")
+        "call), boards of set_power / set_led as ints, lists and tuples; every MachineController method x injected fault (SCP "
+        "error at request 0 and at a later request, allocation returning 0, cores not reaching wait, IOBUF chain) inside a block "
+        "with / without callbacks, caught / uncaught; 8 callback programs (callback calling a method in the closing context, body "
+        "raising, callback raising with a later callback skipped, callback opening blocks and updating the context, user callback "
+        "on an application context, failing stop signal, nested application blocks left by exception, BMP); discover_connections "
+        "on fake machines up to 24x12 with dead chips / Ethernet down / boards not answering, followed by commands to chips of "
+        "the machine over the discovered table; random part: with-structured programs of depth <= 4 with blocks over random "
+        "subsets of argument names, before_close callbacks, application blocks (explicit / contextual id, failing stop, user "
+        "callbacks), update_current_context, raise, try/except, calls of random methods (incl. discover_connections) in random "
+        "styles (incl. calls lacking required arguments) with random faults, over random connection tables (machine sizes, root "
+        "chips, discovered Ethernet chips; BMP board/frame connections).  Contextual values are drawn pairwise distinct so that a "
+        "swapped or stale value cannot match by accident.  Non-trivial: a program in which at least one call resolved an argument "
+        "from a context or was rejected inside a block, or a block was left by exception.")
 
 _APLX = [None]
 MC_CTX = ["x", "y", "p", "app_id", "processor"]
 BMP_CTX = ["cabinet", "frame", "board"]
-F6_MARK = "has no attribute 'Iterable'"
 
 
 # --------------------------------------------------------------------------
@@ -74,8 +109,12 @@ class FakeTime(object):
 
     def __init__(self):
         self.now = 0.0
+        self.calls = 0
 
     def sleep(self, s):
+        self.calls += 1
+        if self.calls > 5000:
+            raise RuntimeError("runaway polling loop")
         self.now += max(float(s), 0.0)
 
     def time(self):
@@ -83,23 +122,68 @@ class FakeTime(object):
         return self.now
 
 
+def fault_exceptions():
+    from rig.machine_control.scp_connection import SCPError
+    import rig.machine_control.machine_controller as m
+    return (SCPError, m.SpiNNakerMemoryError, m.SpiNNakerRouterError, m.SpiNNakerLoadingError)
+
+
+def fault_name(f):
+    return "machine" if f is None else f if isinstance(f, str) else f[0]
+
+
+def host_name(host):
+    """connection name from the host string: `10.0.x.y` is the address the fake machine reports for chip (x, y)"""
+    if isinstance(host, str) and host.startswith("10.0."):
+        a = host.split(".")
+        return [int(a[2]), int(a[3])]
+    return None
+
+
 class FakeConn(object):
     def __init__(self, name, log, mem, state):
         self.name, self.log, self.mem, self.state = name, log, mem, state
 
-    def _reply(self, cmd, arg1, arg2, arg3):
+    def _record(self, entry):
+        w = self.state.get("world")
+        if w is not None and w.cls == "MachineController":
+            snap = w.snapshot()
+            if snap != w.base_snap:
+                entry["cfg"] = snap      # the connection table in force now is not the one of the case
+        self.log.append(entry)
+        # fault injection: the n-th request of this call is not answered
+        f = self.state.get("fault")
+        n = self.state.get("req_no", 0)
+        self.state["req_no"] = n + 1
+        if isinstance(f, list) and f[0] == "scp_err" and f[1] == n:
+            from rig.machine_control.scp_connection import SCPError
+            raise SCPError("injected: no reply")
+
+    def _reply(self, x, y, cmd, arg1, arg2, arg3):
         from rig.machine_control.packets import SCPPacket
         from rig.machine_control.consts import SCPCommands as C
+        from rig.machine_control.scp_connection import SCPError
+        mach = self.state.get("machine") or {}
+        fault = self.state.get("fault")
         a1 = a2 = a3 = 0
         data = b""
         if cmd == C.sver:
+            if self.name is not None and len(self.name) == 2 and self.name in mach.get("sver_fail", []):
+                raise SCPError("injected: board does not answer")
+            rx, ry = mach.get("root", [0, 0])
+            px, py = (rx, ry) if (x, y) == (255, 255) else (x, y)
+            a1 = (px << 24) | (py << 16)
             a2 = (0xFFFF << 16) | 256
             data = b"SC&MP/SpiNNaker\x002.1.0\x00"
         elif cmd == C.alloc_free:
-            a1 = 0x60000000
+            a1 = 0 if fault == "alloc0" else 0x60000000
         elif cmd == C.info:
-            a1 = 18 | (0x3f << 8) | (1 << 25)
-            data = bytes(18) + struct.pack("<HI", 0, 0x0100007f)
+            if [x, y] in mach.get("info_fail", []):
+                raise SCPError("injected: chip does not answer")
+            up = 0 if [x, y] in mach.get("eth_down", []) else (1 << 25)
+            a1 = 18 | (0x3f << 8) | up
+            ip = 10 | ((x & 0xff) << 16) | ((y & 0xff) << 24)
+            data = bytes(18) + struct.pack("<HI", 0, ip)
         elif cmd == C.iptag:
             data = bytes(32)
         elif cmd == C.link_read:
@@ -107,28 +191,30 @@ class FakeConn(object):
         elif cmd == C.bmp_info:
             data = bytes(struct.calcsize("<8H4h4h4hII"))
         elif cmd == C.signal:
-            a1 = 1
+            a1 = 0 if fault == "notwait" else 1
         return SCPPacket(cmd_rc=0x80, arg1=a1, arg2=a2, arg3=a3, data=data)
 
     def send_scp(self, buffer_size, x, y, p, cmd, arg1=0, arg2=0, arg3=0, data=b'', expected_args=3, timeout=0.0):
-        self.log.append({"kind": self.state["kind"], "conn": self.name, "x": int(x), "y": int(y), "p": int(p),
-                         "cmd": int(cmd), "arg1": int(arg1), "arg2": int(arg2)})
+        self._record({"kind": self.state["kind"], "conn": self.name, "x": int(x), "y": int(y), "p": int(p),
+                      "cmd": int(cmd), "arg1": int(arg1), "arg2": int(arg2)})
         if self.state.get("fail_signal") and int(cmd) == 22:
             self.state["fail_signal"] = False
             raise StopFailed()
-        return self._reply(cmd, arg1, arg2, arg3)
+        return self._reply(int(x), int(y), cmd, arg1, arg2, arg3)
 
     def read(self, buffer_size, window_size, x, y, p, address, length_bytes):
-        self.log.append({"kind": "mem", "conn": self.name, "x": int(x), "y": int(y), "p": int(p),
-                         "cmd": 2, "arg1": int(address), "arg2": int(length_bytes)})
+        self._record({"kind": "mem", "conn": self.name, "x": int(x), "y": int(y), "p": int(p),
+                      "cmd": 2, "arg1": int(address), "arg2": int(length_bytes)})
         v = self.mem.get(address)
         if v is not None:
             return v[:length_bytes].ljust(length_bytes, b"\0")
+        if self.state.get("fault") == "iobuf" and length_bytes == 4:
+            return struct.pack("<I", 0x1000)    # non-zero IOBUF pointer: get_iobuf_bytes follows it once
         return bytes(length_bytes)
 
     def write(self, buffer_size, window_size, x, y, p, address, data):
-        self.log.append({"kind": "mem", "conn": self.name, "x": int(x), "y": int(y), "p": int(p),
-                         "cmd": 3, "arg1": int(address), "arg2": len(data)})
+        self._record({"kind": "mem", "conn": self.name, "x": int(x), "y": int(y), "p": int(p),
+                      "cmd": 3, "arg1": int(address), "arg2": len(data)})
 
     def close(self):
         pass
@@ -140,21 +226,26 @@ class World(object):
     def __init__(self, cls, cfg, init):
         self.cls, self.cfg = cls, cfg
         self.log, self.mem = [], {}
-        self.state = {"kind": "scp" if cls == "MachineController" else "bmp"}
+        self.state = {"kind": "scp" if cls == "MachineController" else "bmp", "world": self,
+                      "machine": cfg.get("machine")}
+        self.base_snap = None
         if cls == "MachineController":
             import rig.machine_control.machine_controller as m
-            real = m.SCPConnection
-            m.SCPConnection = lambda *a, **k: FakeConn(None, self.log, self.mem, self.state)
+            self.real_conn = m.SCPConnection
+            # every SCPConnection the controller opens (the initial one, and those of discover_connections)
+            # is a recording fake named after the host it was opened to
+            m.SCPConnection = lambda host, *a, **k: FakeConn(host_name(host), self.log, self.mem, self.state)
             try:
                 self.c = m.MachineController("nohost", initial_context=py_dict(init)) if init is not None \
                     else m.MachineController("nohost")
-            finally:
-                m.SCPConnection = real
+            except Exception:
+                m.SCPConnection = self.real_conn
+                raise
             self.mod = m
-            sv = self.c.structs[b"sv"]
-            self.mem[sv.base + sv[b"p2p_dims"].offset] = struct.pack("<H", (2 << 8) | 2)
             self.c._scp_data_length = 256
+            self.load_machine()
             self.apply_cfg()
+            self.base_snap = self.snapshot()
         else:
             import rig.machine_control.bmp_controller as b
             real = b.SCPConnection
@@ -168,6 +259,28 @@ class World(object):
             self.mod = b
             self.c._scp_data_length = 256
 
+    def close(self):
+        if self.cls == "MachineController":
+            self.mod.SCPConnection = self.real_conn
+
+    def load_machine(self):
+        """memory image of the fake machine: P2P table dimensions and routes (dead chips have no route)"""
+        from rig.machine_control import consts
+        mach = self.cfg.get("machine") or {}
+        mw, mh = mach.get("dims", [2, 2])
+        sv = self.c.structs[b"sv"]
+        self.mem[sv.base + sv[b"p2p_dims"].offset] = struct.pack("<H", (mw << 8) | mh)
+        dead = {tuple(d) for d in mach.get("dead", [])}
+        for col in range(mw):
+            words = []
+            for w0 in range(0, mh, 8):
+                word = 0
+                for e in range(min(8, mh - w0)):
+                    if (col, w0 + e) in dead:
+                        word |= 6 << (3 * e)
+                words.append(word)
+            self.mem[consts.SPINNAKER_RTR_P2P + (((256 * col) // 8) * 4)] = struct.pack("<%dI" % len(words), *words)
+
     def apply_cfg(self):
         c, cfg = self.c, self.cfg
         dims, root = cfg.get("dims"), cfg.get("root")
@@ -176,6 +289,13 @@ class World(object):
         c.connections = {None: c.connections[None]}
         for (x, y) in cfg.get("conns", []):
             c.connections[(x, y)] = FakeConn([x, y], self.log, self.mem, self.state)
+
+    def snapshot(self):
+        """what `_get_connection` looks at, now"""
+        c = self.c
+        dims = [c._width, c._height] if c._width is not None and c._height is not None else None
+        root = [int(c._root_chip[0]), int(c._root_chip[1])] if c._root_chip is not None else None
+        return {"dims": dims, "root": root, "conns": sorted([int(k[0]), int(k[1])] for k in c.connections if k is not None)}
 
 
 # --------------------------------------------------------------------------
@@ -190,6 +310,8 @@ def to_val(v):
         return v
     if isinstance(v, int):
         return int(v)
+    if isinstance(v, (list, tuple)) and v and all(isinstance(t, int) and not isinstance(t, bool) for t in v):
+        return {"l": [int(t) for t in v]}
     if isinstance(v, str) and v == _APLX[0]:
         return {"o": "<aplx>"}
     if isinstance(v, list) and v and type(v[0]).__name__ == "RoutingTableEntry":
@@ -206,6 +328,8 @@ def from_val(v, objs=None):
     if isinstance(v, dict):
         if "req" in v:
             return Required
+        if "l" in v:
+            return tuple(v["l"]) if v.get("t") else list(v["l"])
         t = v["o"]
         if t == "<aplx>":
             return aplx_file()
@@ -230,6 +354,8 @@ _OBJS = {}
 
 
 def obj_token(o):
+    if isinstance(o, dict) and "l" in o:
+        return o                     # already a protocol value (a list / tuple of ints)
     return to_val(o)
 
 
@@ -342,18 +468,15 @@ def merged_of(c):
     return sorted(([k, to_val(v)] for k, v in c.get_context_arguments().items()), key=lambda kv: kv[0])
 
 
-def do_call(w, m, pos, kw, events, ev_id, is_app=False):
-    """call a decorated method; returns (result, exception to propagate or None, rejected?)"""
+def do_call(w, m, pos, kw, events, ev_id, fault=None):
+    """call a decorated method; returns (result, exception to propagate or None, rejected?, body failed?)"""
     c, log = w.c, w.log
     i0 = len(log)
     _TAP["rec"], _TAP["depth"] = None, 0
     args = [from_val(v, _OBJS) for v in pos]
     kwargs = py_dict(kw, _OBJS)
     exc, out, res = None, None, None
-    patched = None
-    if m == "discover_connections" and w.cls == "MachineController":
-        patched = w.mod.SCPConnection
-        w.mod.SCPConnection = lambda *a, **k: FakeConn([-1, -1], w.log, w.mem, w.state)
+    w.state["fault"], w.state["req_no"] = fault, 0
     try:
         res = getattr(c, m)(*args, **kwargs)
         out = {"sent": True}
@@ -372,19 +495,23 @@ def do_call(w, m, pos, kw, events, ev_id, is_app=False):
             out = {"rejected": "noconn"}
         else:
             out = {"sent": True, "body_exc": "AssertionError: " + str(e)[:80]}
+    except fault_exceptions() as e:
+        exc = e
+        out = {"sent": True, "failed": type(e).__name__}
+        if fault is None and "injected" not in str(e):
+            out["body_exc"] = "%s: %s" % (type(e).__name__, str(e)[:80])
     except Exception as e:  # noqa
         exc = e
         out = {"sent": True, "body_exc": "%s: %s" % (type(e).__name__, str(e)[:80])}
     finally:
-        if patched is not None:
-            w.mod.SCPConnection = patched
-            w.apply_cfg()
+        w.state["fault"] = None
+    if "body_exc" in out:
+        out["failed"] = out["body_exc"].split(":")[0]
     if _TAP["rec"] is not None:
         out["npos"] = _TAP["rec"][0]
         out["kwargs"] = [[k, to_val(v)] for k, v in _TAP["rec"][1]]
-    events.append({"ev": "call", "id": ev_id, "m": m, "out": out, "datagrams": log[i0:],
-                   "skip_conn": m == "discover_connections"})
-    return res, exc, "rejected" in out
+    events.append({"ev": "call", "id": ev_id, "m": m, "out": out, "datagrams": log[i0:], "fault": fault})
+    return res, exc, "rejected" in out, "failed" in out
 
 
 def run_prog(w, prog, events):
@@ -394,8 +521,8 @@ def run_prog(w, prog, events):
         if s == "raise":
             raise Unwind()
         elif s == "call":
-            _, exc, rejected = do_call(w, st["m"], st["pos"], st["kw"], events, st["id"])
-            if rejected and not st["caught"]:
+            _, exc, rejected, failed = do_call(w, st["m"], st["pos"], st["kw"], events, st["id"], st.get("fault"))
+            if (rejected or failed) and not st["caught"]:
                 raise exc
         elif s == "update":
             c.update_current_context(**py_dict(st["kv"], _OBJS))
@@ -410,13 +537,22 @@ def run_prog(w, prog, events):
                 cm = c(**py_dict(st["ctx"], _OBJS))
             else:
                 n0 = len(events)
-                cm, exc, rejected = do_call(w, "application", st["pos"], st["kw"], events, st["id"])
+                cm, exc, rejected, _ = do_call(w, "application", st["pos"], st["kw"], events, st["id"])
                 if rejected:
                     raise exc
                 events.pop()        # an accepted application() call is reported by the enter event
                 assert len(events) == n0
             mark = [len(w.log)]
+            cbmark = [None]
             entered = [False]
+            if st.get("cb"):
+                # a `before_close` callback registered by the user (after the stop-signal callback of an
+                # application context): runs the statements of st["cb"] inside the context being closed
+                def callback(st=st):
+                    if cbmark[0] is None:
+                        cbmark[0] = len(w.log)
+                    run_prog(w, st["cb"], events)
+                cm.before_close(callback)
             try:
                 with cm:
                     entered[0] = True
@@ -430,27 +566,29 @@ def run_prog(w, prog, events):
             finally:
                 w.state["fail_signal"] = False
                 if entered[0]:
+                    end = cbmark[0] if cbmark[0] is not None else len(w.log)
                     events.append({"ev": "exit", "id": st["id"], "merged": merged_of(c), "before": before,
-                                   "app": s == "app", "datagrams": w.log[mark[0]:]})
+                                   "app": s == "app", "datagrams": w.log[mark[0]:end], "cb": cbmark[0] is not None})
         else:
             raise ValueError(s)
 
 
 def run_impl(case):
     w = World(case["cls"], case["cfg"], case.get("init"))
-    install_tap(type(w.c))
     events = []
     raised = False
     real_time = w.mod.time
     w.mod.time = FakeTime()
     try:
+        install_tap(type(w.c))
         run_prog(w, case["prog"], events)
     except Unwind:
         raised = True
-    except (TypeError, AssertionError, StopFailed):
+    except (TypeError, AssertionError, StopFailed) + fault_exceptions():
         raised = True
     finally:
         w.mod.time = real_time
+        w.close()
     stack_merged = merged_of(w.c)
     return {"events": events, "raised": raised, "merged": stack_merged}
 
@@ -458,12 +596,28 @@ def run_impl(case):
 # --------------------------------------------------------------------------
 # comparing with the model, applying the oracles
 # --------------------------------------------------------------------------
-def model_request(case):
+def with_failures(prog, failed):
+    """the program with `fails` set on the calls whose method body raised in the implementation run
+    (whether the network answers is an input of the model, not something it predicts)"""
+    out = []
+    for st in prog:
+        st = dict(st)
+        if st["s"] == "call":
+            st["fails"] = bool(failed.get(st["id"]))
+        for k in ("body", "cb"):
+            if k in st:
+                st[k] = with_failures(st[k], failed)
+        out.append(st)
+    return out
+
+
+def model_request(case, im=None):
     init = case.get("init")
     if init is None:
         init = [["app_id", 66]] if case["cls"] == "MachineController" else [["cabinet", 0], ["frame", 0], ["board", 0]]
+    failed = {e["id"]: True for e in (im or {}).get("events", []) if e["ev"] == "call" and "failed" in e["out"]}
     return {"suite": "c18", "op": "run", "cls": case["cls"], "bmp_conns": case["cfg"].get("bmp_conns", []),
-            "stack": [init], "prog": case["prog"]}
+            "stack": [init], "prog": with_failures(case["prog"], failed)}
 
 
 def sorted_pairs(d):
@@ -479,7 +633,7 @@ def evaluate(ctx, cases):
     if not cases:
         return
     impl = [run_impl(c) for c in cases]
-    model = ctx.lean([model_request(c) for c in cases])
+    model = ctx.lean([model_request(c, im) for c, im in zip(cases, impl)])
     oreqs, oidx = [], []
     for ci, (case, im, mo) in enumerate(zip(cases, impl, model)):
         desc = {k: case[k] for k in ("cls", "cfg", "init", "prog") if k in case}
@@ -530,11 +684,11 @@ def evaluate(ctx, cases):
                     continue
                 ctx.tag("method:%s.%s" % ("mc" if case["cls"] == "MachineController" else "bmp", meth))
                 if "body_exc" in out:
-                    if F6_MARK in out["body_exc"]:
-                        ctx.tag("undrivable:F6:%s" % meth)
-                        ctx.extra.setdefault("undrivable", {})[meth] = out["body_exc"]
-                    else:
-                        ctx.mismatch("c18.body", "%s.%s raised %s" % (case["cls"], meth, out["body_exc"]), desc)
+                    ctx.mismatch("c18.body", "%s.%s raised %s" % (case["cls"], meth, out["body_exc"]), desc)
+                elif "failed" in out:
+                    ctx.tag("fault:%s:%s" % (fault_name(e["fault"]), out["failed"]))
+                elif e.get("fault"):
+                    ctx.tag("fault:%s:survived" % fault_name(e["fault"]))
                 if "kwargs" in out:
                     if out["kwargs"] != res["sent"]:
                         got, want = dict(map(tuple, map(lambda kv: (kv[0], repr(kv[1])), out["kwargs"]))), \
@@ -548,11 +702,17 @@ def evaluate(ctx, cases):
                         else:
                             ctx.mismatch("c18.kwargs", "order of new_kwargs differs: impl=%r model=%r" % (out["kwargs"], res["sent"]), desc)
                     ctx.tag("tapped")
-                if not e["datagrams"] and res["pats"] and "body_exc" not in out:
+                if not e["datagrams"] and res["pats"] and "failed" not in out:
                     ctx.mismatch("c18.silent", "%s.%s sent nothing (model allows %d patterns)" % (case["cls"], meth, len(res["pats"])), desc)
                 oreqs.append({"suite": "c18", "op": "oracle", "cls": case["cls"], "pats": res["pats"],
                               "datagrams": e["datagrams"], "cfg": case["cfg"], "bmp_conns": case["cfg"].get("bmp_conns", [])})
                 oidx.append((ci, desc, e, "call", meth))
+                if any("cfg" in d for d in e["datagrams"]):
+                    ctx.tag("conn:judged-against-rewritten-table")
+                if any(d["conn"] is not None for d in e["datagrams"]) and case["cls"] == "MachineController":
+                    ctx.tag("conn:over-discovered-connection")
+                if any(isinstance(kv[1], dict) and "l" in kv[1] for kv in res["sent"]):
+                    ctx.tag("boards-as-iterable:%s" % meth)
                 if case.get("uses_ctx"):
                     nontriv = True
             elif e["ev"] == "enter":
@@ -560,6 +720,8 @@ def evaluate(ctx, cases):
                     ctx.mismatch("c18.enter", "context after entering block %d differs: impl=%r model=%r" % (e["id"], e["merged"], m["merged"]), desc)
             else:  # exit
                 ctx.tag("exit:%s" % ("app" if e["app"] else "block"))
+                if e.get("cb"):
+                    ctx.tag("exit:with-callbacks")
                 if e["merged"] != e["before"]:
                     ctx.violation("context-not-restored",
                                   "after leaving block %d the arguments in force are %r, before it they were %r" % (
@@ -595,7 +757,7 @@ def evaluate(ctx, cases):
             ctx.violation("wrong-destination",
                           "%s.%s put on the wire %r (application id / mask %r) which is not a destination its resolved "
                           "arguments name" % (cls, meth, bad, [r["extras"][i] for i in r["bad"][:3]]), desc)
-        elif not r["conn"] and not e.get("skip_conn"):
+        elif not r["conn"]:
             ctx.violation("wrong-connection",
                           "%s.%s: a datagram did not travel over the connection of the board holding its target: %r" % (
                               cls, meth, e["datagrams"][:4]), desc)
@@ -674,6 +836,11 @@ class Gen(object):
                 true[n] = (ctxvals or {}).get(n, None)
                 if true[n] is None:
                     true[n] = self.ctx_value(n)
+        if self.cls == "BMPController" and name in ("set_power", "set_led") and "board" in true \
+                and not (ctxvals and "board" in ctxvals) and rng.random() < 0.45:
+            # boards given as an iterable (list or tuple) of distinct board numbers
+            bs = rng.sample(range(3), rng.randrange(1, 4))
+            true["board"] = {"l": bs, "t": 1} if rng.random() < 0.5 else {"l": bs}
         pos, kw, need_ctx = [], [], {}
         if sig["hasVarargs"]:
             pos = [obj_token(o) for o in extra]
@@ -765,6 +932,145 @@ def random_cfg(rng, cls):
     return {"dims": [w, h], "root": root, "conns": [c for i, c in enumerate(conns) if c not in conns[:i]]}
 
 
+def random_machine(rng, big=False):
+    """the fake machine behind the initial connection: what discover_connections / get_system_info find"""
+    w, h = rng.choice([(8, 8), (12, 12), (24, 12), (12, 24), (20, 16), (24, 24)] if big else [(2, 2), (2, 2), (8, 8), (3, 5)])
+    root = [rng.choice([0, 0, 4, 8, 3]) % w, rng.choice([0, 0, 8, 4, 5]) % h]
+    chips = [[x, y] for x in range(w) for y in range(h)]
+    pick = lambda pr: [c for c in chips if rng.random() < pr and c != [w - 1, h - 1]]
+    eth = []
+    for bx in range(0, w + 12, 12):
+        for by in range(0, h + 12, 12):
+            for dx, dy in ((0, 0), (4, 8), (8, 4)):
+                e = [(bx + dx + root[0]) % w, (by + dy + root[1]) % h]
+                if e not in eth:
+                    eth.append(e)
+    some = lambda pr: [e for e in eth if rng.random() < pr]
+    return {"dims": [w, h], "root": root, "dead": pick(0.03), "eth_down": some(0.2), "sver_fail": some(0.2),
+            "info_fail": some(0.15) + pick(0.02), "eth": eth}
+
+
+FAULTS = {
+    # method -> faults that are worth injecting (what the fake connection does differently for this one call)
+    "sdram_alloc": ["alloc0"], "sdram_alloc_as_filelike": ["alloc0"],
+    "load_routing_table_entries": ["alloc0"], "load_routing_tables": ["alloc0"],
+    "load_application": ["notwait"],
+    "get_iobuf": ["iobuf"], "get_iobuf_bytes": ["iobuf"],
+}
+
+
+def random_fault(rng, name):
+    r = rng.random()
+    if name in FAULTS and r < 0.5:
+        return rng.choice(FAULTS[name])
+    return ["scp_err", rng.randrange(4)]
+
+
+def extra_cases(ctx, rng, reps):
+    """failure paths of method bodies, `before_close` callbacks, nested application blocks,
+    discover_connections rewriting the connection table"""
+    cases = []
+    mc, bmp = "MachineController", "BMPController"
+    for rep in range(reps):
+        # (a) every method with an injected fault, inside a block, followed by a call in the restored context
+        for (cls, name), sig in sorted(signatures().items()):
+            if (cls, name) in _SKIP or name == "application":
+                continue
+            faults = (FAULTS.get(name, []) + [["scp_err", 0], ["scp_err", rng.randrange(1, 4)]]) if cls == mc else [None]
+            if name == "wait_for_cores_to_reach_state":
+                faults = faults + ["notwait"]       # polls until the timeout (set below) expires
+            for fault in faults:
+                cfg = random_cfg(rng, cls)
+                if name in ("discover_connections", "get_system_info"):
+                    cfg["machine"] = random_machine(rng)
+                g = Gen(rng, cls, cfg)
+                st, need = g.call(name, rng.choice(["context", "mixed", "keyword"]), caught=rng.random() < 0.5)
+                if name == "wait_for_cores_to_reach_state":
+                    st["kw"] = [kv for kv in st["kw"] if kv[0] != "timeout"] + [["timeout", 1]]
+                    st["pos"] = st["pos"][:2]
+                if fault == "alloc0" and name.startswith("sdram_alloc"):
+                    st["kw"] = [kv for kv in st["kw"] if kv[0] != "tag"]
+                    if len(st["pos"]) > 1:
+                        st["pos"][1] = 1
+                    else:
+                        st["kw"].append(["tag", 1])     # tag != 0: the failure path reads the tag table
+                st["fault"] = fault
+                # (BMP: the same method again - a board iterable in the context suits set_power / set_led only)
+                probe = "send_signal" if cls == mc else name
+                after, need2 = g.call("send_signal" if cls == mc else "read_adc", "default")
+                blk = {"s": "block", "id": g.fresh_id(), "ctx": [[k, v] for k, v in need.items()],
+                       "body": [st, g.call(probe, "default")[0]]}
+                if rng.random() < 0.5:
+                    blk["cb"] = [g.call(probe, "default")[0]]
+                cases.append({"cls": cls, "cfg": cfg, "init": None, "prog": [{"s": "try", "body": [blk]}, after],
+                              "depth": 1, "uses_ctx": bool(need), "exc_exit": not st["caught"],
+                              "label": "%s.%s/fault=%r" % (cls, name, fault)})
+        # (b) callbacks: a decorated method called from a callback resolves against the closing context;
+        #     a raising callback; callbacks of application contexts; nested applications
+        for variant in range(8):
+            cls = mc if variant != 7 else bmp
+            cfg = random_cfg(rng, cls)
+            g = Gen(rng, cls, cfg)
+            probe = "send_signal" if cls == mc else "set_led"
+            inner, need = g.call("read" if cls == mc else "set_led", "context")
+            cb_call, need_cb = g.call(probe, "context")
+            ctxd = [[k, v] for k, v in dict(list(need.items()) + list(need_cb.items())).items()]
+            after = g.call(probe, "default")[0]
+            if variant in (0, 7):
+                prog = [{"s": "block", "id": g.fresh_id(), "ctx": ctxd, "body": [inner], "cb": [cb_call]}, after]
+            elif variant == 1:      # the body raises; callbacks still run; then the exception goes on
+                prog = [{"s": "try", "body": [{"s": "block", "id": g.fresh_id(), "ctx": ctxd,
+                                                "body": [inner, {"s": "raise"}], "cb": [cb_call]}]}, after]
+            elif variant == 2:      # the first callback raises: the second one is skipped, the context still removed
+                prog = [{"s": "try", "body": [{"s": "block", "id": g.fresh_id(), "ctx": ctxd, "body": [inner],
+                                                "cb": [cb_call, {"s": "raise"}, g.call(probe, "context")[0]]}]}, after]
+            elif variant == 3:      # a callback opens blocks / updates the context that is being closed
+                prog = [{"s": "block", "id": g.fresh_id(), "ctx": ctxd, "body": [inner],
+                         "cb": [{"s": "update", "kv": g.decoys(["app_id"])}, g.call(probe, "default")[0],
+                                {"s": "block", "id": g.fresh_id(), "ctx": g.decoys(["app_id", "x"]),
+                                 "body": [g.call(probe, "default")[0]]}]}, after]
+            elif variant == 4:      # application context with a user callback (runs after the stop signal)
+                a, _ = g.call("application", "positional")
+                prog = [{"s": "app", "id": a["id"], "pos": a["pos"], "kw": a["kw"], "stop_fails": False,
+                         "body": [g.call(probe, "default")[0]],
+                         "cb": [{"s": "update", "kv": g.decoys(["app_id"])}, g.call(probe, "default")[0]]}, after]
+            elif variant == 5:      # failing stop signal: the user's callbacks are skipped
+                a, _ = g.call("application", "keyword")
+                prog = [{"s": "try", "body": [{"s": "app", "id": a["id"], "pos": a["pos"], "kw": a["kw"], "stop_fails": True,
+                                                "body": [g.call(probe, "default")[0]], "cb": [g.call(probe, "default")[0]]}]}, after]
+            else:                   # nested application blocks with different ids, inner left by exception
+                a, _ = g.call("application", "positional")
+                b, _ = g.call("application", "keyword")
+                innerapp = {"s": "app", "id": b["id"], "pos": b["pos"], "kw": b["kw"], "stop_fails": False,
+                            "body": [g.call(probe, "default")[0]] + ([{"s": "raise"}] if rng.random() < 0.5 else []),
+                            "cb": [g.call(probe, "default")[0]]}
+                prog = [{"s": "app", "id": a["id"], "pos": a["pos"], "kw": a["kw"], "stop_fails": False,
+                         "body": [{"s": "try", "body": [innerapp]}, g.call(probe, "default")[0]]}, after]
+            cases.append({"cls": cls, "cfg": cfg, "init": None, "prog": prog, "depth": 1, "uses_ctx": True,
+                          "exc_exit": variant in (1, 2, 5, 6), "label": "callbacks/%d" % variant})
+        # (c) discover_connections on machines of several sizes, then commands over the discovered table
+        for k in range(3):
+            cfg = random_cfg(rng, mc) if k else {"dims": None, "root": None, "conns": []}
+            cfg["machine"] = random_machine(rng, big=True)
+            g = Gen(rng, mc, cfg)
+            g.cfg = {"dims": cfg["machine"]["dims"]}      # chips of the machine that will be discovered
+            disc, need = g.call("discover_connections", rng.choice(["default", "keyword", "context"]))
+            prog = [{"s": "block", "id": g.fresh_id(), "ctx": [[kk, v] for kk, v in need.items()], "body": [disc]}]
+            # one command to every Ethernet chip of the machine (over its own connection if it was discovered),
+            # then commands to random chips of the machine
+            targets = [e for e in cfg["machine"]["eth"] if e[0] < cfg["machine"]["dims"][0] and e[1] < cfg["machine"]["dims"][1]][:9]
+            for t in targets + [None] * 4:
+                g.used = set()
+                st, nd = g.call(rng.choice(["read", "write", "get_chip_info", "sdram_alloc", "get_software_version",
+                                            "iptag_get", "fill", "load_routing_table_entries"]), "context")
+                if t is not None:
+                    nd["x"], nd["y"] = t
+                prog.append({"s": "block", "id": g.fresh_id(), "ctx": [[kk, v] for kk, v in nd.items()], "body": [st]})
+            cases.append({"cls": mc, "cfg": cfg, "init": None, "prog": prog, "depth": 1, "uses_ctx": True,
+                          "exc_exit": False, "label": "discover/%d" % k})
+    return cases
+
+
 def systematic_cases(ctx, rng, reps):
     cases = []
     for (cls, name), sig in sorted(signatures().items()):
@@ -823,8 +1129,7 @@ def systematic_cases(ctx, rng, reps):
 def random_prog(g, depth, budget):
     rng = g.rng
     cls = g.cls
-    names = sorted(n for (c, n) in signatures() if c == cls and n not in ("application", "discover_connections")
-                   and (c, n) not in _SKIP)
+    names = sorted(n for (c, n) in signatures() if c == cls and n != "application" and (c, n) not in _SKIP)
     prog = []
     n = rng.randrange(1, 4)
     for _ in range(n):
@@ -833,12 +1138,17 @@ def random_prog(g, depth, budget):
         budget[0] -= 1
         r = rng.random()
         if r < 0.40 or depth >= 4:
-            st, need = g.call(rng.choice(names), rng.choice(["mixed", "mixed", "context", "default", "keyword", "positional"]),
+            name = rng.choice(names)
+            if name in ("discover_connections", "get_system_info") and rng.random() < 0.7:
+                name = rng.choice(names)      # these two send hundreds of datagrams: keep them rarer
+            st, need = g.call(name, rng.choice(["mixed", "mixed", "context", "default", "keyword", "positional"]),
                               caught=rng.random() < 0.8)
+            if cls == "MachineController" and rng.random() < 0.12:
+                st["fault"] = random_fault(rng, name)
             # values that must come from a context: set them on the way (block or update), or leave them out
             if need and rng.random() < 0.7:
                 kv = [[k, v] for k, v in need.items() if rng.random() < 0.85]
-                if rng.random() < 0.5 and kv:
+                if (rng.random() < 0.5 or any(isinstance(v, dict) for _, v in kv)) and kv:
                     prog.append({"s": "block", "id": g.fresh_id(), "ctx": kv, "body": [st]})
                 else:
                     if kv:
@@ -854,14 +1164,20 @@ def random_prog(g, depth, budget):
                 # the sentinel itself as a context value (not for names inner calls pick up: p, processor)
                 ctxd.append([rng.choice([nm for nm in ctx_names(cls) if nm not in ("p", "processor")]), {"req": 1}])
             rng.shuffle(ctxd)
-            prog.append({"s": "block", "id": g.fresh_id(), "ctx": ctxd, "body": random_prog(g, depth + 1, budget)})
+            blk = {"s": "block", "id": g.fresh_id(), "ctx": ctxd, "body": random_prog(g, depth + 1, budget)}
+            if rng.random() < 0.3:
+                blk["cb"] = random_prog(g, depth + 1, budget)
+            prog.append(blk)
         elif r < 0.74 and cls == "MachineController":
             style = rng.choice(["positional", "keyword", "context"])
             st, need = g.call("application", style)
             if need and rng.random() < 0.8:
                 prog.append({"s": "update", "kv": [[k, v] for k, v in need.items()]})
-            prog.append({"s": "app", "id": st["id"], "pos": st["pos"], "kw": st["kw"], "stop_fails": rng.random() < 0.2,
-                         "body": random_prog(g, depth + 1, budget)})
+            app = {"s": "app", "id": st["id"], "pos": st["pos"], "kw": st["kw"], "stop_fails": rng.random() < 0.2,
+                   "body": random_prog(g, depth + 1, budget)}
+            if rng.random() < 0.3:
+                app["cb"] = random_prog(g, depth + 1, budget)
+            prog.append(app)
         elif r < 0.82:
             prog.append({"s": "update", "kv": g.decoys([nm for nm in ctx_names(cls) if rng.random() < 0.4])})
         elif r < 0.92:
@@ -876,7 +1192,7 @@ def has_exc_exit(prog, inside=False):
     for st in prog:
         if st["s"] == "raise" and inside:
             return True
-        if st["s"] in ("block", "app") and has_exc_exit(st["body"], True):
+        if st["s"] in ("block", "app") and (has_exc_exit(st["body"], True) or has_exc_exit(st.get("cb", []), True)):
             return True
         if st["s"] == "try" and has_exc_exit(st["body"], inside):
             return True
@@ -888,6 +1204,8 @@ def random_cases(ctx, rng, n):
     for i in range(n):
         cls = "MachineController" if rng.random() < 0.75 else "BMPController"
         cfg = random_cfg(rng, cls)
+        if cls == "MachineController" and rng.random() < 0.3:
+            cfg["machine"] = random_machine(rng)
         g = Gen(rng, cls, cfg)
         init = None
         if rng.random() < 0.3:
@@ -896,6 +1214,9 @@ def random_cases(ctx, rng, n):
         cases.append({"cls": cls, "cfg": cfg, "init": init, "prog": prog, "depth": 1, "uses_ctx": True,
                       "exc_exit": has_exc_exit(prog)})
     return cases
+
+
+_MODEL_CORE = [[]]
 
 
 def check_signature_table(ctx):
@@ -910,47 +1231,91 @@ def check_signature_table(ctx):
             ctx.broken.append("signature of %s.%s is not well-formed for the decorator" % key)
         elif s["body"] == 0 and key[1] != "application":
             ctx.broken.append("no wire rule for %s.%s (new decorated method: extend bodyOf)" % key)
+        elif not s["rule_ok"] or not s["chip_known"]:
+            ctx.broken.append("wire rule of %s.%s does not address the chip / board its signature names" % key)
     ctx.extra["decorated_methods"] = len(signatures())
+    ctx.extra["symbolic_requests"] = sum(s["n_rules"] for s in got.values())
+    _MODEL_CORE[0] = sorted("%s.%s" % k for k, s in got.items() if s["core_from_context"])
+    ctx.extra["model_core_from_context"] = _MODEL_CORE[0]
 
 
 def style_probe(ctx):
-    """Observation (not a verdict): methods whose wire traffic differs between passing the same contextual
-    values by keyword and through an enclosing context (inner calls that omit an argument pick it up
-    from the context)."""
+    """Observation (documented, not a violation): for which methods the wire traffic depends on HOW the same
+    contextual values are passed (keyword / enclosing context), and on an ambient `p` set by an enclosing context.
+    Compared with what the model proves (`core_from_context_methods`, `core_style_dependent_methods`,
+    `chip_independent_of_passing_style`): an observed dependence the model does not predict, or ANY difference in
+    the chips (x, y) addressed, is reported as a model/implementation mismatch (the wire oracle of the systematic
+    cases turns a wrong chip into a violation with a replay)."""
     import random
-    differs = {}
+    differs, ambient = {}, {}
     fixed = {"x": 3, "y": 5, "p": 7, "app_id": 40, "processor": 9, "cabinet": 0, "frame": 0, "board": 1}
+    model_core = set(_MODEL_CORE[0])
+
+    def observe(cls, cfg, prog):
+        r = run_impl({"cls": cls, "cfg": cfg, "init": None, "prog": prog})
+        ev = [e for e in r["events"] if e["ev"] == "call"]
+        return [(d["x"], d["y"], d["p"], d["cmd"], d["arg1"], d["arg2"]) for d in ev[0]["datagrams"]] if ev else None
+
     for (cls, name) in sorted(signatures()):
-        if (cls, name) in _SKIP or name in ("application", "discover_connections"):
+        if (cls, name) in _SKIP or name == "application":
             continue
+        full = "%s.%s" % (cls, name)
         cfg = {"dims": None, "root": None, "conns": []} if cls == "MachineController" else {"bmp_conns": [[0, 0]]}
         obs = []
         for style in ("keyword", "context"):
             g = Gen(random.Random(1), cls, cfg)
             st, need = g.call(name, style, ctxvals=dict(fixed))
+            if name.startswith("sdram_alloc"):
+                st["fault"] = "alloc0"      # the failure path is the one with inner reads
+                st["kw"] = [kv for kv in st["kw"] if kv[0] != "tag"]
+                if len(st["pos"]) > 1:
+                    st["pos"][1] = 1
+                else:
+                    st["kw"].append(["tag", 1])
+            if name.startswith("get_iobuf"):
+                st["fault"] = "iobuf"
             prog = [{"s": "block", "id": 99, "ctx": [[k, v] for k, v in need.items()], "body": [st]}] if need else [st]
-            r = run_impl({"cls": cls, "cfg": cfg, "init": None, "prog": prog})
-            ev = [e for e in r["events"] if e["ev"] == "call"]
-            obs.append([(d["x"], d["y"], d["p"], d["cmd"], d["arg1"], d["arg2"]) for d in ev[0]["datagrams"]] if ev else None)
+            obs.append(observe(cls, cfg, prog))
+            if style == "keyword" and cls == "MachineController":
+                # the same call under an enclosing context that sets only `p`
+                amb = observe(cls, cfg, [{"s": "block", "id": 98, "ctx": [["p", 11]], "body": [st]}])
+                if amb != obs[0]:
+                    ambient[full] = sorted({t[2] for t in (amb or [])} - {t[2] for t in (obs[0] or [])})
+                    if [t[:2] + t[3:] for t in (amb or [])] != [t[:2] + t[3:] for t in (obs[0] or [])]:
+                        ctx.mismatch("c18.style", "%s: an ambient p changes more than the core: %r vs %r" % (full, obs[0][:4], amb[:4]), {})
         if obs[0] != obs[1]:
-            differs["%s.%s" % (cls, name)] = {"keyword": [list(t[:3]) for t in (obs[0] or [])][:3],
-                                              "context": [list(t[:3]) for t in (obs[1] or [])][:3]}
+            differs[full] = {"keyword": [list(t[:3]) for t in (obs[0] or [])][:3],
+                             "context": [list(t[:3]) for t in (obs[1] or [])][:3]}
+            if [t[:2] + t[3:] for t in (obs[0] or [])] != [t[:2] + t[3:] for t in (obs[1] or [])]:
+                ctx.mismatch("c18.style", "%s: the passing style changes more than the core of a request "
+                             "(chip / command / arguments): keyword %r context %r" % (full, obs[0][:4], obs[1][:4]), {})
     ctx.extra["wire_depends_on_passing_style"] = differs
+    ctx.extra["core_follows_ambient_p"] = ambient
+    unpredicted = sorted((set(differs) | set(ambient)) - model_core)
+    if unpredicted:
+        ctx.mismatch("c18.style", "the core of a request depends on the context for %r, which the model "
+                     "(core_from_context_methods) does not predict" % (unpredicted,), {})
+    missing = sorted(model_core - set(differs) - set(ambient))
+    ctx.extra["core_from_context_not_observed"] = missing
+    if missing:
+        ctx.mismatch("c18.style", "the model says the core of an inner request of %r is left to the context, "
+                     "but no such dependence was observed" % (missing,), {})
 
 
 def run(ctx):
     ctx.extra["rule"] = RULE
     ctx.assumptions += [
-        "each with-block uses a fresh context object (the `with c(...)` / `with mc.application(..)` idiom), exits are LIFO as `with` guarantees",
-        "board / led arguments are ints (iterables of boards are outside the generators)",
-        "per-method wire rules (bodyOf) are a transcription validated by exhaustive-over-methods correspondence, not proved",
-        "the fake connection answers every command successfully; SCP failure paths of method bodies (e.g. failed SDRAM allocation) are not driven",
+        "each with-block uses a fresh context object (the `with c(...)` / `with mc.application(..)` idiom), exits are LIFO as `with` guarantees; callbacks are registered before the block is entered",
+        "board arguments are ints or non-empty lists / tuples of distinct non-negative ints (set_power / set_led only: the other BMP methods document a single board); led arguments are ints",
+        "the transcription `bodyOf` of which requests / inner decorated calls a method makes is validated by exhaustive-over-methods correspondence, not proved; what IS proved about it: wire_carries_resolved and the passing-style theorems",
+        "whether a method body fails (SCP error, failed allocation) is taken from the implementation run as an input of the model; the connection table rewritten by discover_connections is observed per datagram, not predicted",
     ]
     try:
         check_signature_table(ctx)
         rng = ctx.rng
         mult = 4 if ctx.extended else 1
         cases = systematic_cases(ctx, rng, ctx.scale(1, 6) * mult)
+        cases += extra_cases(ctx, rng, ctx.scale(1, 8) * mult)
         cases += random_cases(ctx, rng, ctx.scale(400, 40000) * mult)
         for i in range(0, len(cases), 2000):
             evaluate(ctx, cases[i:i + 2000])
